@@ -1,8 +1,17 @@
 ----------------------------- MODULE ConfigMC -----------------------------
 (* TLC enumerates the abstract message space of ConfigRules.tla and prints one implementation test per message. *)
 EXTENDS ConfigRules, Json
-CONSTANT Pairs        \* BOOLEAN: include all pairs within a section (thorough)
+CONSTANTS Pairs,       \* BOOLEAN: include all pairs within a section (thorough)
+          VSeqLen      \* length of the AddValidator / RemoveValidator sequences
 VARIABLE msg
+\* the validator list as a set of <<validator, spelling>>; AddValidator refuses a validator listed under ANY spelling and
+\* stores the spelling it was given, RemoveValidator removes the entry spelled exactly as given
+VOps == [op : {"add_validator", "remove_validator"}, v : {"val1", "val3"}, spelling : {"lower", "upper"}]
+VStored0 == {<<"val1", "lower">>, <<"val2", "lower">>}
+VOk(S, o) == IF o.op = "add_validator" THEN ~\E x \in S : x[1] = o.v ELSE <<o.v, o.spelling>> \in S
+VAfter(S, o) == IF ~VOk(S, o) THEN S ELSE IF o.op = "add_validator" THEN S \cup {<<o.v, o.spelling>>} ELSE S \ {<<o.v, o.spelling>>}
+RECURSIVE VWant(_, _)
+VWant(S, q) == IF q = << >> THEN << >> ELSE <<VOk(S, Head(q))>> \o VWant(VAfter(S, Head(q)), Tail(q))
 Inst == IF Pairs THEN InstantiateMsgs ELSE ValidSingles
 Init == \/ /\ msg \in {[kind |-> "instantiate", classes |-> m, sections |-> Sections,
                         want |-> AllGood(m, AllFields \cup {"d_sub"})] : m \in Inst}
@@ -10,6 +19,11 @@ Init == \/ /\ msg \in {[kind |-> "instantiate", classes |-> m, sections |-> Sect
         \/ /\ msg \in {[kind |-> "update", classes |-> u.classes, sections |-> u.sections,
                         want |-> AllGood(u.classes, UNION {Fields[s] : s \in u.sections})] : u \in ValidUpdateMsgs}
            /\ PrintT("CFG " \o ToJson(msg))
+        \* every sequence of VSeqLen validator additions / removals by the admin, each naming a listed (val1) or an
+        \* unlisted (val3) validator in lower- or upper-case spelling, starting from the list [val1, val2]; `want` is
+        \* the outcome of each step in the reference semantics (statistics only - ConfigTrace judges the property)
+        \/ /\ msg \in {[kind |-> "vseq", steps |-> q, want |-> VWant(VStored0, q)] : q \in [1..VSeqLen -> VOps]}
+           /\ PrintT("VSEQ " \o ToJson(msg))
 Next == UNCHANGED msg
 Spec == Init /\ [][Next]_msg
 =============================================================================
